@@ -221,10 +221,12 @@ class Ctx:
         self.free = list(range(NLOC))
         self.callable_n = callable_n
         self.fin_depth = 0     # number of enclosing finally bodies in this frame
+        self.cif = False       # inside a catch clause that is inside a finally body
 
-    def sub(self, loops=None, cv=None, fin=0):
+    def sub(self, loops=None, cv=None, fin=0, clause=False):
         c = Ctx(self.callable_n)
         c.fin_depth = self.fin_depth + fin
+        c.cif = self.cif or (clause and self.fin_depth >= 1)
         c.loops = list(self.loops) if loops is None else loops
         c.cv = self.cv if cv is None else cv
         c.free = self.free     # shared: counters are per frame
@@ -319,9 +321,9 @@ class Gen:
     # ---- random programs
     def leaf(self, c):
         opts = [("print", 5), ("show", 3), ("throw", 4), ("return", 1), ("defer", 1)]
-        if c.loops and c.fin_depth < 2:
+        if c.loops and c.fin_depth < 2 and not c.cif:
             # break/continue out of a finally body nested in another finally body: known finding
-            # exit-from-nested-finally-body (enumerated shapes and the corpus still cover it)
+            # loop-exit-from-catch-or-finally-inside-finally-handler (enumerated shapes and the corpus still cover it)
             opts += [("break", 3), ("continue", 2)]
         if c.cv:
             opts += [("showcaught", 2), ("rethrow", 2)]
@@ -379,7 +381,7 @@ class Gen:
         for _ in range(self.r.choice([0, 1, 1, 2, 3])):
             pat = self.r.choice(PATS)
             binds = pat in ("pint", "pstr") or (isinstance(pat, list) and pat[0] == "any" and pat[1] == 1)
-            clauses.append((pat, self.block(d - 1, c.sub(cv=binds))))
+            clauses.append((pat, self.block(d - 1, c.sub(cv=binds, clause=True))))
         if self.r.chance(3, 5):
             return self.fin_do(body, clauses, self.block(d - 1, c.sub(fin=1)) if self.r.chance(2, 3) else None)
         return do(body, clauses, None)
@@ -535,23 +537,25 @@ def kinds_of(ast, acc=None):
     return acc
 
 
-def nested_finally_exit(ast, fd=0):
-    """a break/continue that sits inside a finally body which is itself inside a finally body"""
+def nested_finally_exit(ast, fd=0, cif=False):
+    """a break/continue that sits inside a finally body nested in another finally body (fd >= 2), or inside
+    a catch clause that is inside a finally body (cif): it leaves a finally body / catch clause without
+    popping that construct's operands, inside an enclosing finally handler"""
     if not isinstance(ast, list) or not ast:
         return False
     op = ast[0]
     if op in ("break", "continue"):
-        return fd >= 2
+        return fd >= 2 or cif
     if op == "do":
-        if nested_finally_exit(ast[1], fd):
+        if nested_finally_exit(ast[1], fd, cif):
             return True
         for c in ast[2][1:]:
-            if nested_finally_exit(c[2], fd):
+            if nested_finally_exit(c[2], fd, cif or fd >= 1):
                 return True
-        return ast[3] != "nofin" and nested_finally_exit(ast[3][1], fd + 1)
+        return ast[3] != "nofin" and nested_finally_exit(ast[3][1], fd + 1, cif)
     if op == "prog":
-        return any(nested_finally_exit(m_, 0) for m_ in ast[1][1:]) or nested_finally_exit(ast[2], 0)
-    return any(nested_finally_exit(x, fd) for x in ast[1:])
+        return any(nested_finally_exit(m_, 0, False) for m_ in ast[1][1:]) or nested_finally_exit(ast[2], 0, False)
+    return any(nested_finally_exit(x, fd, cif) for x in ast[1:])
 
 
 STMT_KINDS = ["do", "loop", "while", "break", "continue", "return", "throw", "rethrow", "defer", "call", "if", "show",
@@ -717,10 +721,11 @@ def prog_stream(ctx, elk, model):
             oracle = ("finally body not run when a catch clause of the same do exits by %s (implementation output equals the "
                       "deviating interpreter run false)" % first_kind)
             n_known_class += 1
-        elif outcome not in ("go_panic", "go_fatal", "signal") and nested_finally_exit(ast):
-            key = "exit-from-nested-finally-body"
-            oracle = ("program contains break/continue inside a finally body nested in another finally body; the enclosing "
-                      "finally body is repeated or the program hangs (stale JUMP_TO_FINALLY operands on the value stack)")
+        elif nested_finally_exit(ast):
+            key = "loop-exit-from-catch-or-finally-inside-finally-handler"
+            oracle = ("program contains break/continue that leaves a finally body or a catch clause located inside another finally "
+                      "body; the enclosing finally body is repeated, the program hangs or RETHROW panics (operands of the left "
+                      "construct stay on the value stack and the enclosing handler's epilogue takes them for its flag)")
             n_known_class += 1
         elif outcome in ("go_panic", "go_fatal", "timeout", "signal"):
             key = "crash:%s:%s" % (outcome, origin if origin.startswith("shape") else "+".join(sorted(ks & set(STMT_KINDS))))
@@ -864,6 +869,22 @@ def _set(ast, path, new):
     return cp
 
 
+def valid_targets(ast, loops=()):
+    """every break/continue has an enclosing loop it can target in the same frame"""
+    if not isinstance(ast, list) or not ast:
+        return True
+    op = ast[0]
+    if op in ("break", "continue"):
+        return bool(loops) if ast[1] == "none" else (ast[1] in loops)
+    if op == "loop":
+        return valid_targets(ast[2], loops + (ast[1],))
+    if op == "while":
+        return valid_targets(ast[3], loops + (ast[1],))
+    if op == "prog":
+        return all(valid_targets(m_, ()) for m_ in ast[1][1:]) and valid_targets(ast[2], ())
+    return all(valid_targets(x, loops) for x in ast[1:])
+
+
 def shrink(ast, bad, budget=400):
     """greedy subtree replacement while bad(ast) stays true"""
     changed = True
@@ -934,6 +955,8 @@ def shrink_main(argv):
         return outcome, std, f
 
     def bad(a):
+        if not valid_targets(a):
+            return False
         v = verdict(a)
         if v is None:
             return False
